@@ -185,4 +185,31 @@ theorem CovInv_after (pre : List Op) (hg : guard pre = true) : CovInv pre (after
   have := CovInv_runFrom Inv_init CovInv_init pre hg
   simpa [after, run] using this
 
+/-! ### the local node; timestamps of emitted NodeLeft events -/
+
+theorem self_never_joined (pre : List Op) (op : Op) : (evAt pre op self).join = none :=
+  (stepL_self_join _ _ _ _ _ _ rfl (Inv_after pre).selfJoin).2
+
+/-- every emitted NodeLeft(n)@t belongs to a left notification for `n`: the one at position t-1 -/
+theorem emitted_left_ts (pre : List Op) (op : Op) (n : Node) (t : Nat)
+    (h : (evAt pre op n).left = some t) :
+    1 ≤ t ∧ t ≤ pre.length + 1 ∧ ∃ c, (pre ++ [op])[t - 1]? = some (.left n c) := by
+  rcases stepL_left_emit_prov _ _ _ _ _ _ t h with h | ⟨rfl, hop⟩
+  · obtain ⟨h1, h2, c, h3⟩ := (Inv_after pre).leftTs n t h
+    exact ⟨h1, by omega, c, by rw [List.getElem?_append_left (by omega)]; exact h3⟩
+  · obtain ⟨c, rfl⟩ := (isLeftOf_iff _ _).mp hop
+    exact ⟨by omega, by omega, c, by simp⟩
+
+/-- NodeLeft(self) needs a left notification naming the local node (which the code does not filter) -/
+theorem self_left_only_if_notified (pre : List Op) (op : Op) (t : Nat)
+    (h : (evAt pre op self).left = some t) : ∃ c, Op.left self c ∈ pre ++ [op] := by
+  obtain ⟨_, _, c, hc⟩ := emitted_left_ts pre op self t h
+  exact ⟨c, List.mem_of_getElem? hc⟩
+
+theorem guard_no_self_left (h : List Op) (hg : guard h = true) (c : Epoch) : Op.left self c ∉ h := by
+  intro hm
+  obtain ⟨a, b, rfl⟩ := List.append_of_mem hm
+  have := guard_split a _ b hg
+  simp [guardStep] at this
+
 end GoaktVerif.C34
